@@ -176,7 +176,7 @@ def tcp_scenarios(ctx, n):
         b = T.port_base(g)
         u1, u2, px = b, b + 1, b + 2
         entry = {"name": "p", "listen": "127.0.0.1:%d" % px, "upstream": "127.0.0.1:%d" % u1}
-        kind = rng.choice(["same", "same", "differ", "differ_disabled", "reset"])
+        kind = rng.choice(["same", "same", "differ", "differ_disabled", "reset"]) if i % 4 != 3 else "reset_in_flight"
         ops = [{"op": "upstream", "id": "u1", "port": u1, "mode": "echo"}, {"op": "upstream", "id": "u2", "port": u2, "mode": "echo"},
                T.api("POST", "/populate", [entry]),
                {"op": "dial", "id": "c1", "addr": "127.0.0.1:%d" % px}, {"op": "send", "id": "c1", "n": 200},
@@ -200,6 +200,20 @@ def tcp_scenarios(ctx, n):
             e2 = dict(entry, upstream="127.0.0.1:%d" % u2, enabled=False)
             ops += [T.api("POST", "/populate", [e2]), {"op": "recv", "id": "c1", "n": 1, "ms": 1500},
                     {"op": "dial", "id": "c2", "addr": "127.0.0.1:%d" % px}, {"op": "bindcheck", "port": px}]
+        elif kind == "reset_in_flight":
+            # the reset arrives while a toxic still holds part of what the live connection is relaying (the pause before a slicer's last
+            # piece, a latency wait, a bandwidth instalment): the connection stays up and nothing of it is lost
+            holder = [{"type": "slicer", "name": "s", "attributes": {"average_size": 500, "size_variation": 0, "delay": 400000}},
+                      {"type": "slicer", "name": "s", "attributes": {"average_size": 334, "size_variation": 0, "delay": 250000}},
+                      {"type": "latency", "name": "s", "attributes": {"latency": 600}},
+                      {"type": "bandwidth", "name": "s", "attributes": {"rate": 1}}][(i // 4) % 4]
+            wait = {"slicer": rng.choice([120, 200]), "latency": 200, "bandwidth": 300}[holder["type"]]
+            if holder["attributes"].get("average_size") == 334:
+                wait = rng.choice([100, 350])       # the first or the second of two pauses
+            ops += [T.api("POST", "/proxies/p/toxics", holder), {"op": "send", "id": "c1", "n": 1000}, {"op": "sleep", "ms": wait},
+                    T.api("POST", "/reset"), {"op": "recv", "id": "c1", "n": 1000, "ms": 1500},
+                    {"op": "send", "id": "c1", "n": 300}, {"op": "recv", "id": "c1", "n": 300, "ms": 800},
+                    T.api("GET", "/proxies/p/toxics")]
         else:
             # several toxics stacked on the direction of the reply: after the reset the live connection passes data unmodified (at once)
             for j in range(rng.range(0, 4)):
@@ -226,6 +240,11 @@ def tcp_scenarios(ctx, n):
             if r[-3].get("end") not in ("eof", "reset") or r[-2]["ok"] or not r[-1]["ok"]:
                 fails.append(("populate-replace", "a differing, disabled populate entry left the old proxy up (old connection %s, dial %s, port %s)"
                               % (r[-3].get("end"), "accepted" if r[-2]["ok"] else "refused", "free" if r[-1]["ok"] else "still bound"), rp))
+        elif c["kind"] == "reset_in_flight":
+            first, second = r[-4], r[-2]
+            if not (first["ok"] and first["content_ok"] and second["ok"] and second["content_ok"]) or r[-1]["body"].strip() != "[]":
+                fails.append(("reset", "a reset while a toxic held part of a live connection's data lost or damaged it: of 1000 bytes in flight %d arrived (%s), of 300 sent "
+                                       "afterwards %d (%s)" % (first.get("got", 0), first.get("end") or "open", second.get("got", 0), second.get("end") or "open"), rp))
         else:
             if not (r[-2]["ok"] and r[-2]["content_ok"]) or r[-1]["body"].strip() != "[]":
                 fails.append(("reset", "reset dropped a live connection of an enabled proxy or left toxics", rp))
@@ -234,7 +253,7 @@ def tcp_scenarios(ctx, n):
 
 
 def run(ctx):
-    tcp_fail, tcp_cov = T.stable(lambda: tcp_scenarios(ctx, 18 if ctx.tier == "quick" else 400))
+    tcp_fail, tcp_cov = T.stable(lambda: tcp_scenarios(ctx, 24 if ctx.tier == "quick" else 400))
     orig_finish = C.Verdict.finish
 
     def finish(self):
